@@ -129,6 +129,8 @@ type FCtx struct {
 	cacheN      int
 	recoverLit  *ast.FuncLit
 	inRecover   bool
+	implicitRecv map[ast.Expr]*types.Selection
+	curGhostSet  map[string]bool
 }
 
 func (fc *FCtx) frame() *frame { return fc.frames[len(fc.frames)-1] }
